@@ -1,17 +1,18 @@
 #!/bin/sh
-# Run /repo's test suite (guard off) and compare with BASELINE.json: prints the
-# baseline-stable tests that no longer pass.
-cd /repo || exit 2
+# run_suite.sh [dir]: run the test suite of the qlasskit tree in dir (default /repo, guard off)
+# and compare with BASELINE.json: prints the baseline-stable tests that no longer pass.
+D="${1:-/repo}"
+cd "$D" || exit 2
 unset DAKK_QLASSKIT_VERIF
-rm -f /tmp/qv_suite.xml
-timeout 3000 /venv/bin/python -m pytest -q -p no:cacheprovider --timeout=900 --continue-on-collection-errors -n 12 --junitxml=/tmp/qv_suite.xml >/tmp/qv_suite.log 2>&1
-git -C /repo checkout -- .t_statistics 2>/dev/null
-python3 - <<'PY'
-import json, xml.etree.ElementTree as ET
+X=/tmp/qv_suite_$$.xml
+PYTHONPATH="$D" timeout 3000 /venv/bin/python -m pytest -q -p no:cacheprovider --timeout=900 --continue-on-collection-errors -n 8 --junitxml=$X >/tmp/qv_suite.log 2>&1
+git -C "$D" checkout -- .t_statistics 2>/dev/null
+python3 - "$X" <<'PY'
+import json, sys, xml.etree.ElementTree as ET
 base=json.load(open('/root/.vp/BASELINE.json'))
 stable=set(base['stable_pass'])
 passed=set()
-for tc in ET.parse('/tmp/qv_suite.xml').getroot().iter('testcase'):
+for tc in ET.parse(sys.argv[1]).getroot().iter('testcase'):
     name=f"{tc.get('classname')}::{tc.get('name')}"
     if not any(ch.tag in ('failure','error','skipped') for ch in tc):
         passed.add(name)
@@ -19,3 +20,4 @@ missing=sorted(stable-passed)
 print(f"baseline stable: {len(stable)}  passing now: {len(stable&passed)}  missing: {len(missing)}")
 for m in missing[:40]: print("  MISSING", m)
 PY
+rm -f $X
